@@ -352,3 +352,30 @@ Proof. exact checkers_exact. Qed.
 
 Theorem C16_heap_answers_sound : forall x y, answer_eqb x y = true -> x = y.
 Proof. exact answer_eqb_sound. Qed.
+
+(* ===== round 6 *)
+(* TIE of the swap decisions and of the nested-record model: the regenerated decision of every converter (the lets of
+   its body up to the `if` that binds the returned array, then its test) is the model's [doswap]; the hand model for
+   nested records [apply_top] is assembled from regenerated parts only (the regenerated decision run on a record whose
+   fields carry the top-level orders, the regenerated byteswap, the no-swap branch) *)
+Theorem C16_source_tie_decisions :
+  (forall f ml a ip k, swaps_g f ml a ip k = doswap f ml (adt a))
+  /\ (forall ml a, ru_to_native_inplace_swaps_g ml a = doswap ToNative ml (adt a))
+  /\ (forall f ml top a ip k,
+        apply_top f ml top a ip k
+        = if swaps_g f ml (pseudo top) ip k then nu_byteswap_g ml a ip k else (if ip then prim_self a else prim_copy a)).
+Proof. exact source_tie_decisions. Qed.
+
+(* The GUARDS by which a run recognises the inputs of the quantifier, and the remaining checkers, are exact
+   (soundness was proved before; completeness means: the property check is demanded on EVERY valid, uniformly
+   ordered input and can raise no false alarm) *)
+Theorem C16_guards_exact :
+  (forall d, valid_dtype_b d = true <-> valid_dtype d)
+  /\ (forall ml d, uniform_b ml d = true <-> uniform ml d)
+  /\ (forall din dparsed, stripped_check din dparsed = true <-> stripped_ok din dparsed)
+  /\ (forall ml a o, rec_native_check_core ml a o = true <->
+        arr_values ml (o_res o) = arr_values ml a /\ all_native ml (adt (o_res o)) = true
+        /\ (same_structure (adt (o_res o)) (adt a) /\ ashape (o_res o) = ashape a) /\ o_inp o = a)
+  /\ (forall d base idx ip o1 base1, view_check d base idx ip o1 base1 = true <->
+        (ip = true -> gather [] idx base1 = rows_of d (adata (o_res o1))) /\ (ip = false -> base1 = base)).
+Proof. exact guards_exact. Qed.
